@@ -4,7 +4,7 @@ Writes seeded/<id>/meta.json (adds/updates the "checks" section) and tables/seed
 usage: run_seeds.py [id ...]"""
 import json, os, re, subprocess, sys
 VERIF = os.path.dirname(os.path.dirname(os.path.abspath(__file__)))
-EXTRA = {"c01": ["C03", "C27", "C05"], "c27": ["C01", "C03"], "c03": ["C01"], "c06": ["C07"], "c02": ["C05"], "c04": ["C27"], "c05": ["C02"], "c28": ["C11"], "c07": ["C06", "C09"], "c11": ["C28"], "c19": ["C27"], "c21": ["C37"], "c23": ["C20"], "c24": ["C22"]}
+EXTRA = {"c01": ["C03", "C27", "C05"], "c27": ["C01", "C03"], "c03": ["C01"], "c06": ["C07"], "c02": ["C05"], "c04": ["C27"], "c05": ["C02"], "c28": ["C11"], "c07": ["C06", "C09"], "c11": ["C28"], "c19": ["C27"], "c21": ["C37"], "c23": ["C20"], "c24": ["C22"], "c35": ["C36"], "c36": ["C35"], "c31": ["C27"], "c30": ["C22"]}
 
 
 def section(text, title):
